@@ -109,7 +109,14 @@ func oracleC13InProc(p *Pair, env *Env, a [][]byte) *Failure {
 	}
 	r2 := p.Impl(Op{"renumber.processYaml", [][]byte{a[0], r1.Out[0]}}, env.timeout)
 	if r2.Status != "ok" || !bytes.Equal(r2.Out[0], r1.Out[0]) {
-		return &Failure{What: "renumber-tests is not idempotent", Detail: fmt.Sprintf("input %q\nonce  %q\ntwice %s", in, r1.Out[0], r2.String())}
+		f := &Failure{What: "renumber-tests is not idempotent", Detail: fmt.Sprintf("input %q\nonce  %q\ntwice %s", in, r1.Out[0], r2.String())}
+		// D22: a line that ends in CR CR LF loses one CR per run; attributed only when the two results
+		// differ by carriage returns alone
+		if (bytes.Contains(in, []byte("\r\r\n")) || bytes.HasSuffix(in, []byte("\r\r"))) && r2.Status == "ok" &&
+			bytes.Equal(bytes.ReplaceAll(r2.Out[0], []byte("\r"), nil), bytes.ReplaceAll(r1.Out[0], []byte("\r"), nil)) {
+			f.Finding = "D22"
+		}
+		return f
 	}
 	return nil
 }
